@@ -622,6 +622,20 @@ func ruleC03AggSiblings(c *Ctx) {
 			c.Unknown("c03.agg-siblings", key, c.P.Pos(f.Pos()), "the loop does not carry an accumulator and an all-NULL flag")
 			continue
 		}
+		// the flag's polarity: "all NULL so far" starts true and is cleared by a number; "found a number" starts false and
+		// is set by one. flagInit is the value that stands for "no number seen"
+		flagInit, haveInit := true, false
+		for i, e := range flag.Edges {
+			if !lp.header.Dominates(flag.Block().Preds[i]) {
+				if k, isK := e.(*ssa.Const); isK && k.Value != nil && k.Value.Kind() == constant.Bool {
+					flagInit, haveInit = constant.BoolVal(k.Value), true
+				}
+			}
+		}
+		if !haveInit {
+			c.Unknown("c03.agg-siblings", key, c.P.Pos(f.Pos()), "the all-NULL flag does not start from a constant")
+			continue
+		}
 		isNumber := func(t *Term) bool {
 			x := ext0(t)
 			if x == nil {
@@ -674,7 +688,7 @@ func ruleC03AggSiblings(c *Ctx) {
 				}
 				nNum++
 				fl := p.PhiIn[flag]
-				if fl.C == nil || isTrueC(fl.C) {
+				if fl.C == nil || isTrueC(fl.C) == flagInit {
 					why = append(why, "a non-NULL member does not clear the all-NULL flag")
 				}
 				a := p.PhiIn[acc].T
@@ -798,7 +812,7 @@ func ruleC03AggSiblings(c *Ctx) {
 						fv, assumed = v, true
 					}
 				}
-				if assumed && isTrueC(fv) {
+				if assumed && isTrueC(fv) == flagInit {
 					sawNull = true
 					if !p.Ret[0].Nil {
 						why = append(why, "all-NULL input does not yield NULL")
